@@ -8,3 +8,11 @@ M("c01-shift7", "C01", "py_common.py", "0xFF & ((G[0] << 8 - ibit) | (G[1] >> ib
 M("c01-range", "C01", "py_common.py", "for ibyte in range(len(mbytes) - 3):", "for ibyte in range(len(mbytes) - 3 - (len(mbytes) == 7 and mbytes[0] == 0xA5)):")
 M("c01-enc5", "C01", "py_common.py", 'msg = msg[:-6] + "000000"', 'msg = msg[:-5] + "00000"')
 M("c01-legacy", "C01", "py_common.py", "msgnpbin[-24:] = [0] * 24", "msgnpbin[-23:] = [0] * 23")
+
+# ---- C06
+M("c06-nz", "C06", "py_common.py", "    nz = 15\n", "    nz = 14\n")
+M("c06-gt86", "C06", "py_common.py", "    elif lat > 87 or lat < -87:", "    elif lat > 87 or lat < -87.5:")
+M("c06-round", "C06", "py_common.py", "    NL = floor(nl)\n    return NL", "    NL = int(round(nl))\n    return NL")
+M("c06-pyx-neg", "C06", "c_common.pyx", "    elif lat > 87 or lat < -87:", "    elif lat > 87 or lat < -88:")
+M("c06-pyx-fabs", "C06", "c_common.pyx", "cdef double b = cos(pi / 180 * fabs(lat)) ** 2", "cdef double b = cos(pi / 180 * fabs(lat) * 1.0000001) ** 2")
+M("c06-pyx-tol-equiv", "C06", "c_common.pyx", "1e-08 + 1e-05 * 87", "1e-08 + 1e-04 * 87", equivalent=True)
